@@ -9,7 +9,7 @@ import (
 
 // Shapes lists every data shape known to the generator.
 var Shapes = []string{"random", "text", "utf8", "utf8wide", "dna", "dnalines", "exe", "wav", "bmp",
-	"runs", "smallalpha", "skew", "zeros", "gzipmagic", "mixed", "ramp", "numeric", "html", "sparse", "x86", "hex", "nibbles", "alpha15", "alpha17", "base64", "dnarep", "bmptile"}
+	"runs", "smallalpha", "skew", "zeros", "gzipmagic", "mixed", "ramp", "numeric", "html", "sparse", "x86", "hex", "nibbles", "alpha15", "alpha17", "base64", "dnarep", "bmptile", "crlfsplit", "tailrandom"}
 
 var words = strings.Fields(`the of and to in is that it was for on are as with his they be at one have this from
 or had by hot word but what some we can out other were all there when up use your how said an each she which do
@@ -259,6 +259,23 @@ func Make(shape string, seed int64, n int) []byte {
 				b = append(b, c)
 			}
 		}
+	case "crlfsplit":
+		// DOS text whose 64-byte records are shifted by one byte: every offset that is a multiple of 64 falls between
+		// a CR and its LF, so blocks (sizes are multiples of 16, usually of 64) start with LF and end with CR
+		b = append(b, '\n')
+		for len(b) < n {
+			for k := 0; k < 62; k++ {
+				b = append(b, words[r.Intn(len(words))][0])
+			}
+			b = append(b, '\r', '\n')
+		}
+	case "tailrandom":
+		// compressible text followed by an incompressible tail (the last, short block behaves differently)
+		cut := n - n/5
+		b = append(b, Make("text", seed+1, cut)...)
+		tail := make([]byte, n-cut)
+		r.Read(tail)
+		b = append(b, tail...)
 	case "hex":
 		for len(b) < n {
 			b = append(b, "0123456789abcdef"[r.Intn(16)])
